@@ -354,14 +354,31 @@ func c18Check(root string, doc []byte) (res fw.Result) {
 		if isPkg {
 			continue
 		}
-		var src sourceaddrs.FinalSource
-		var serr error
-		if pn, pv := fw.Try(func() { src, serr = b.SourceForLocalPath(fp) }); pn {
-			return viol("reverse-lookup-panic", "SourceForLocalPath(%q) panicked: %s", fp, pv)
+		// the same question asked again, and asked about a neighbour in the same
+		// directory, must get the same refusal: an answer may not depend on
+		// which lookups the Bundle served before
+		asks := []string{fp, fp}
+		if nb := filepath.Join(filepath.Dir(fp), "neighbour.tf"); nb != fp {
+			nbPkg := false
+			for d := range dirs {
+				if nb == d || strings.HasPrefix(nb, d+"/") {
+					nbPkg = true
+				}
+			}
+			if !nbPkg {
+				asks = append(asks, nb, fp)
+			}
 		}
-		res.Evals++
-		if serr == nil {
-			return viol("foreign-path-accepted", "path %q is outside every package directory but SourceForLocalPath returned %s", fp, src)
+		for n, ask := range asks {
+			var src sourceaddrs.FinalSource
+			var serr error
+			if pn, pv := fw.Try(func() { src, serr = b.SourceForLocalPath(ask) }); pn {
+				return viol("reverse-lookup-panic", "SourceForLocalPath(%q) panicked: %s", ask, pv)
+			}
+			res.Evals++
+			if serr == nil {
+				return viol("foreign-path-accepted", "path %q is outside every package directory but SourceForLocalPath returned %s (lookup %d of the sequence %q on this Bundle)", ask, src, n+1, asks)
+			}
 		}
 	}
 	return res
@@ -476,7 +493,7 @@ func init() {
 		ID:    "C18",
 		Level: "exploration",
 		Rule: "manifest documents are written by the harness: field-wise (exhaustive over a 30-name hostile local-dir alphabet x {one package, alias pair of equal-length addresses, duplicate source}), PRNG documents (format numbers, valid / invalid sources, registry sections, odd versions, wrong JSON types) and manifests of real builds mutated at JSON-structure and byte level. " +
-			"When OpenDir accepts a document: no package may name a directory with a separator / '.' / '..' / empty; every LocalPathFor* answer for every listed package and registry version x sub-paths must be a proper descendant of the root; for 8 path shapes inside every package directory (absolute and relative to the working directory) the two lookups must invert each other and be stable; 7 foreign paths (root, manifest file, parent, sibling, sibling sharing the root's name prefix, unknown directory, '/') must be refused. non-trivial = the document was accepted; distinct = document",
+			"When OpenDir accepts a document: no package may name a directory with a separator / '.' / '..' / empty; every LocalPathFor* answer for every listed package and registry version x sub-paths must be a proper descendant of the root; for 8 path shapes inside every package directory (absolute and relative to the working directory) the two lookups must invert each other and be stable; 7 foreign paths (root, manifest file, parent, sibling, sibling sharing the root's name prefix, unknown directory, '/') must be refused, each asked twice, then a neighbour in the same directory, then once more (an answer may not depend on the lookups served before). non-trivial = the document was accepted; distinct = document",
 		Assumptions: []string{"the harness decodes the document leniently with encoding/json to learn which directory names it contains"},
 		Phases:      []*fw.Phase{fieldwise, random, mutated, distilled, nativeFuzzPhase("native-fuzz-opendir-lookups", "FuzzOpenDir", "lookups", 150000)},
 	})
